@@ -79,7 +79,10 @@ def actor_check(prop, tier, replay):
         tr2 = tlc_trace("TableTrace.tla", "TableTrace.cfg", path, timeout=3000, parts=14, by_trace=True)
         ck.cov["trace_lines"] += tr2["lines"]
         ck.cov["pools"].append({"pool": "all-bot tables", "scenarios": summ.get("scenarios", 0), "lines": tr2["lines"], "stuck": summ.get("stuck", 0)})
-        ck.route(["C18_", "C10_acceptedLegal", "C11_progress"], tr2, path, "vh table --bots")
+        # (a bot that panics takes the engine process with it: the crash line of that worker is a C18 matter here)
+        ck.route(["C18_", "C10_acceptedLegal", "C11_progress", "C03_noPanic"], tr2, path, "vh table --bots")
+        if crashed and not any(v[0] == "C03_noPanic" for v in tr2["viol"]):
+            raise Inconclusive("a bot-table worker died without a recorded crash line: " + crashed[0][1][:400])
     fut.result()
     ck.assumptions = ["states shown are reached by the real backend from small stacks (1..30 chips) in nine label layouts / blind structures; larger stacks are sampled in the thorough tier",
                       "the recording adapter accepts every call; acceptance is judged by replaying the call on the real NativeGameBackend"]
